@@ -157,7 +157,14 @@ class Prop(BaseProp):
             else:
                 fn = f"wrap_{k}"
                 body.append(f"function({fn})\n" + doc + cmd + f"endfunction()\n{fn}()\n")
-        return "".join(lines) + "".join(body), (names, list(self.doc_flags))
+        text = "".join(lines) + "".join(body)
+        shape = rng.random()
+        if shape < 0.08:
+            text = "\ufeff" + text                # UTF-8 byte order mark, as some editors write it (CMake accepts it)
+            self.bom_files = getattr(self, "bom_files", 0) + 1
+        elif shape < 0.16 and text.endswith("\n"):
+            text = text[:-1]                       # no newline at the end of the file
+        return text, (names, list(self.doc_flags))
 
     def run_case(self, idx, rng):
         res = CaseResult()
@@ -198,12 +205,14 @@ class Prop(BaseProp):
                         res.count("files_traced_individually")
             sigs = []
             res.count("large_files", getattr(self, "big_files", 0))
+            res.count("files_with_byte_order_mark", getattr(self, "bom_files", 0))
             self.big_files = 0
+            self.bom_files = 0
             for p, text, (names, doc_flags) in files:
                 res.count("programs")
                 wit = {"text": text}
                 ents = [e for e in tr.get(p, []) if e["cmd"].lower() in {n.lower() for n in names}]
-                ref = cmake_lexer.lex(text)
+                ref = cmake_lexer.lex(text.lstrip("\ufeff"))
                 refc = {c.line: c for c in ref.commands if c.name.lower() in {n.lower() for n in names}}
                 # validate the two references against each other
                 bad_ref = (not ref.valid) or ref.legacy or rc != 0 and not ents
@@ -263,6 +272,7 @@ class Prop(BaseProp):
         return res
 
     def check_signatures(self, res, rst, text, ref, names, doc_flags, wit):
+        text = text.lstrip("\ufeff")
         from .. import rstscan
         low = {n.lower() for n in names}
         calls = [c for c in ref.commands if c.name.lower() in low]
